@@ -28,6 +28,14 @@ struct C20 : Harness {
         return ref::selftest();
     }
 
+    // getopt accepts options in any order: permute the option groups (-b, -k, -c/-t, -d) by `order`
+    static std::vector<std::string> arrange(std::vector<std::vector<std::string>> groups, int order) {
+        std::vector<std::vector<std::string>> g;
+        for (auto &x : groups) if (!x.empty()) g.push_back(x);
+        std::vector<std::string> out;
+        while (!g.empty()) { size_t i = (size_t)order % g.size(); order /= (int)g.size() ? (int)g.size() : 1; for (auto &a : g[i]) out.push_back(a); g.erase(g.begin() + (long)i); }
+        return out;
+    }
     int run_tool(const std::string &tool, const std::vector<std::string> &args) {
         std::vector<char *> argv;
         std::string path = tools + "/" + tool;
@@ -52,7 +60,7 @@ struct C20 : Harness {
             bool bflag = bs == 8 || *chance(50);     // block size 128 is the default
             int maxk = tool == 1 ? 2 * bs : 3 * bs;
             Op c = mkop("tool");
-            c.set("tool", tool).set("bs", bs).set("bflag", bflag ? 1 : 0);
+            c.set("tool", tool).set("bs", bs).set("bflag", bflag ? 1 : 0).set("order", *irange(0, 23));   // order of the option groups on the command line
             if (*chance(22)) {
                 // invalid invocation
                 int w = *irange(0, 8);
@@ -128,7 +136,11 @@ struct C20 : Harness {
             if (inv == 1) what = "no -k option";
             if (inv == 2) what = "key too short";
             if (inv == 3) what = "key too long";
-            if (inv == 4) { if (tool == 2) { a.push_back("-c"); } else a.push_back(tool == 1 ? "-t" : "-c"); a.push_back(hex(*ctr)); what = "counter/tweak longer than the block"; }
+            if (inv == 4) {
+                std::vector<std::string> gc = {tool == 1 ? "-t" : "-c", hex(*ctr)};
+                a = arrange({base, {"-k", hex(key)}, gc}, (int)c.geti("order"));
+                what = "counter/tweak longer than the block";
+            }
             if (inv == 5) { a.clear(); a.push_back("-b"); a.push_back("96"); a.push_back("-k"); a.push_back(hex(key)); what = "bad -b value"; }
             if (inv == 6) { a.pop_back(); a.push_back("0123456789abcdefzz" + hex(key)); what = "non-hex digits in the key"; }
             if (inv == 7) { a.pop_back(); a.push_back(""); what = "empty key"; }
@@ -143,9 +155,10 @@ struct C20 : Harness {
             if (!st.shrinking) { st.count(std::string("invalid/") + what); st.case_done(ser(p), true); }
             return "";
         }
-        std::vector<std::string> a = base;
-        a.push_back("-k"); a.push_back(hex(key));
-        if (ctr && tool != 2) { a.push_back(tool == 1 ? "-t" : "-c"); a.push_back(hex(*ctr)); }
+        int order = (int)c.geti("order");
+        std::vector<std::string> gk = {"-k", hex(key)}, gc;
+        if (ctr && tool != 2) gc = {tool == 1 ? "-t" : "-c", hex(*ctr)};
+        std::vector<std::string> a = arrange({base, gk, gc}, order);
         std::vector<std::string> enc = a; enc.push_back(in); enc.push_back(out);
         int rc = run_tool(names[tool], enc);
         if (rc != 0) return std::string(names[tool]) + " exited with status " + std::to_string(rc) + " for a valid invocation";
@@ -155,8 +168,7 @@ struct C20 : Harness {
         if (gotb.size() != want.size()) return std::string(names[tool]) + ": output has " + std::to_string(gotb.size()) + " bytes, expected " + std::to_string(want.size()) + " for an input of " + std::to_string(file.size());
         if (gotb != want) { size_t k = 0; while (gotb[k] == want[k]) ++k; return std::string(names[tool]) + ": output differs from the library at byte " + std::to_string(k) + " of " + std::to_string(want.size()); }
         // round trip
-        std::vector<std::string> dec = a;
-        if (tool != 0) dec.insert(dec.begin(), "-d");
+        std::vector<std::string> dec = arrange({base, gk, gc, tool != 0 ? std::vector<std::string>{"-d"} : std::vector<std::string>{}}, order / 3 + 1);
         dec.push_back(out); dec.push_back(back);
         rc = run_tool(names[tool], dec);
         if (rc != 0) return std::string(names[tool]) + " (decrypt) exited with status " + std::to_string(rc);
